@@ -883,7 +883,7 @@ def run(ctx):
     cases = [(pre, ents, off, "corpus") for pre, ents, off in CORPUS] + small_universe()
     if ctx.replay_cases:
         cases = [(c["pre"], c["entries"], c["offset"], "replay") for c in ctx.replay_cases if "entries" in c] + cases
-    n = ctx.n(1000, 9000)
+    n = ctx.n(800, 9000)
     for i in range(n):
         pre = gen_pre(rng)
         wf = rng.random() < 0.85
